@@ -258,6 +258,6 @@ package dns
 
 // asn1.Unmarshal fills the value it is pointed at and only reads the octets (trusted)
 //@ extern encoding/asn1.Unmarshal
-//@   modifies H.struct_R_Pbig.Int__S_Pbig.Int_.R.v H.struct_R_Pbig.Int__S_Pbig.Int_.S.v
+//@   modifies H.struct_R_Pbig.Int__S_Pbig.Int_.R.v@val H.struct_R_Pbig.Int__S_Pbig.Int_.S.v@val
 //@ extern (*math/big.Int).SetBytes
 //@   modifies H.big.Int.abs.cap H.big.Int.abs.len H.big.Int.abs.off H.big.Int.abs.ref H.big.Int.neg.v
